@@ -236,7 +236,7 @@ func cyclicTerm(t Term, visited []Term, env *Env) bool {
 	t = env.Resolve(t)
 
 	for _, v := range visited {
-		if t == v {
+		if id(t) == id(v) {
 			return true
 		}
 	}
